@@ -8,6 +8,105 @@ from vlib.common import Reporter, build_harness, MachineryError
 from checks.c16 import _miri
 
 
+E2E_C = r"""
+#include <stdio.h>
+#include <string.h>
+#include <stdlib.h>
+#include "%(hdr)s"
+extern void verif_sel(size_t j);
+extern size_t verif_take_log(char* buf, size_t cap);
+static char LOGBUF[4096];
+static void hexdump(const unsigned char* p, size_t n) { for (size_t i = 0; i < n; i++) printf("%%02x", p[i]); }
+int main(void) {
+    static const size_t totals[] = { %(totals)s };
+    for (int ci = 0; ci < %(nci)d; ci++) {
+        /* fixed caller buffer of every size 1 .. total+3, surrounded by canaries */
+        for (size_t n = 1; n <= totals[ci] + 3; n++) {
+            unsigned char* mem = malloc(n + 32);
+            memset(mem, 0xC5, n + 32);
+            DiplomatWrite w = diplomat_simple_write((char*)mem + 16, n);
+            verif_sel(ci);
+            %(fn)s(&w);
+            verif_take_log(LOGBUF, sizeof LOGBUF);
+            int canary = 1;
+            for (int k = 0; k < 16; k++) if (mem[k] != 0xC5 || mem[16 + n + k] != 0xC5) canary = 0;
+            printf("FIXED %%d %%zu len=%%zu failed=%%d canary=%%d buf=", ci, n, w.len, (int)w.grow_failed, canary);
+            hexdump(mem + 16, n);
+            printf("\n");
+            free(mem);
+        }
+        /* Rust-owned growable buffer of every initial capacity 1..8 */
+        for (size_t cap = 1; cap <= 8; cap++) {
+            DiplomatWrite* w = diplomat_buffer_write_create(cap);
+            verif_sel(ci);
+            %(fn)s(w);
+            verif_take_log(LOGBUF, sizeof LOGBUF);
+            printf("OWNED %%d %%zu len=%%zu buf=", ci, cap, diplomat_buffer_write_len(w));
+            hexdump((const unsigned char*)diplomat_buffer_write_get_bytes(w), diplomat_buffer_write_len(w));
+            printf("\n");
+            diplomat_buffer_write_destroy(w);
+        }
+    }
+    printf("DONE\n");
+    return 0;
+}
+"""
+
+
+def e2e_half(rep, tier):
+    """methods returning strings through the generated C API return exactly what Rust wrote (fixed and Rust-owned writers, every buffer size)"""
+    from vlib import ffix as F
+    from checks import c01
+    from vlib.common import workdir
+    b = c01.build_all(tier)
+    if not b["ok"]:
+        raise MachineryError("ffix build failed at %s:\n%s" % (b["stage"], b["stderr"][-4000:]))
+    m = next(x for x in b["methods"] if x["kind"] == "W" and not x["params"] and x["ret"] is None)
+    texts = ["".join(ch).encode("utf8") for ch in F.W_CHUNKS]
+    wd = workdir("C12")
+    src = E2E_C % dict(hdr=m["owner"] + ".h", totals=", ".join(str(len(t)) for t in texts), nci=len(texts), fn="%s_%s" % (m["owner"], m["name"]))
+    cp = os.path.join(wd, "e2e.c")
+    open(cp, "w").write(src)
+    exe = os.path.join(wd, "e2e")
+    p = subprocess.run(["gcc", "-std=gnu11", "-O0", "-w", "-fsanitize=address,undefined", "-I", b["hdr"], cp, b["lib"], "-o", exe, "-lpthread", "-ldl", "-lm"],
+                       stdout=subprocess.PIPE, stderr=subprocess.PIPE, text=True)
+    if p.returncode != 0:
+        raise MachineryError("C12 e2e driver does not compile: " + p.stderr[-2000:])
+    env = dict(os.environ)
+    env["ASAN_OPTIONS"] = "detect_leaks=0:exitcode=99"
+    r = subprocess.run([exe], stdout=subprocess.PIPE, stderr=subprocess.PIPE, text=True, env=env, timeout=600)
+    lines = r.stdout.splitlines()
+    if r.returncode != 0 or not lines or lines[-1] != "DONE":
+        rep.violation("C12|e2e|c|driver-died", {"rc": r.returncode, "stderr": r.stderr[-2500:], "last": lines[-2:]}, "C string-output driver crashed (sanitizer report / abort): %s" % r.stderr[-300:])
+    n = 0
+    for l in lines:
+        f = l.split()
+        if f[0] == "FIXED":
+            ci, size = int(f[1]), int(f[2])
+            n += 1
+            # reference writer: capacity size-1, growth always fails, failure sticky; flush NUL-terminates at len
+            content, failed = b"", False
+            for ch in F.W_CHUNKS[ci]:
+                cb = ch.encode("utf8")
+                if failed:
+                    continue
+                if len(content) + len(cb) > size - 1:
+                    failed = True
+                    continue
+                content += cb
+            want = "FIXED %d %d len=%d failed=%d canary=1 buf=%s" % (ci, size, len(content), int(failed), (content + b"\0" + b"\xc5" * (size - len(content) - 1)).hex())
+        elif f[0] == "OWNED":
+            ci, cap = int(f[1]), int(f[2])
+            n += 1
+            want = "OWNED %d %d len=%d buf=%s" % (ci, cap, len(texts[ci]), texts[ci].hex())
+        else:
+            continue
+        if l != want:
+            rep.violation("C12|e2e|c|%s" % f[0], {"observed": l, "expected": want, "chunks": F.W_CHUNKS[int(f[1])]},
+                          "C API string output: chunks %r into a %s writer of size %s: observed `%s` expected `%s`" % (F.W_CHUNKS[int(f[1])], f[0].lower(), f[2], l[:160], want[:160]))
+    return {"c_cases": n, "chunk_sequences": len(texts)}
+
+
 def run(tier):
     rep = Reporter("C12", tier, "model_checking")
     d = build_harness("rtx")
@@ -56,7 +155,9 @@ def run(tier):
             if mj["violation"]:
                 rep.violation("C12|miri-dfs", mj, mj["violation"])
             miri = {"transitions": mj["transitions"], "cmd": miri["cmd"]}
+    e2e = e2e_half(rep, tier) if not rep.violations else None
     cov = {
+        "end_to_end_c_api": e2e,
         "states": r["states"],
         "transitions": r["transitions"],
         "traces_validated_against_impl": r["transitions"],
